@@ -1010,8 +1010,10 @@ MANIFEST = dict(
                "of bytes on disk) or the file is cut at any offset, the next transfer_model does not raise and returns the compile of "
                "the current sources, for unbounded histories mixing crashes, cuts, edits and transfers, given that what the unpickler "
                "raises on a prefix is among the classes load_model converts (shown necessary); (2) on a byte-level model of two "
-               "transfer_model calls sharing the file (truncating open, private offsets, writes in arbitrary pieces), a call about to "
-               "load sees the initial file or an exact prefix, and when both calls are done the file is complete. Tied per run to the "
+               "transfer_model calls sharing the file (truncating open, private offsets, writes in arbitrary pieces, or temporary file + "
+               "rename), also when the two calls write different bytes, a call about to load sees the initial file or an exact prefix of "
+               "the other call's bytes; with atomic writers the file is always complete; with in-place writers of equal bytes the final file "
+               "is complete; any file that does not unpickle is repaired. Tied per run to the "
                "real code by really interrupting save_model at every write call, cutting the cache at byte offsets, running "
                "thread-scheduled interleavings, and a behavioural extraction of the converted exception classes.",
     level_note="Partial by design (named in the evidence): non-prefix torn files (different bytes from the two writers, >2 writers) and "
